@@ -127,6 +127,17 @@ def path_sessions(tier, rng):
                 verb = rng.choice(["RETR", "STOR", "APPE", "LIST", "MLSD"])
                 st += gen.transfer(s, verb, a, connect=rng.choice(["before", "after"]), data=[1] if verb in ("STOR", "APPE") else None)
         out.append(st)
+    # state that names a location survives only as long as the login it was formed under: a pending RNFR, the working
+    # directory and a parked transfer across USER (same user, other user with another base directory, unknown user)
+    for first, second in (("u2", "u1"), ("u1", "u2"), ("u2", "u2"), ("u2", "anonymous"), ("anonymous", "u2")):
+        lg = lambda u: [["send", 1, "USER " + u]] + ([["send", 1, "PASS pw1"]] if u == "u1" else [])
+        for src in ("f", "/f", "h/f", "/h/f", "pub", "d/g"):
+            for dst in ("y", "/y", "../y", "h/y", "d/y"):
+                out.append([["connect", 1]] + lg(first) + [["send", 1, "RNFR " + src]] + lg(second) + [["send", 1, "RNTO " + dst], ["send", 1, "PWD"],
+                           ["send", 1, "MLST " + dst], ["send", 1, "RNFR " + src], ["send", 1, "RNTO " + dst]])
+        for cwd in ("h", "d", "d/e"):
+            out.append([["connect", 1]] + lg(first) + [["send", 1, "CWD " + cwd], ["send", 1, "PWD"]] + lg(second) + [["send", 1, "PWD"], ["send", 1, "MLST f"],
+                       ["send", 1, "MKD zz"], ["send", 1, "DELE f"]])
     return out
 
 
